@@ -1,7 +1,7 @@
 use crate::*;
 
 use lazy_static::lazy_static;
-use statrs::distribution::ContinuousCDF;
+use statrs::distribution::{Continuous, ContinuousCDF};
 use statrs::distribution::{Normal, StudentsT};
 
 ///
@@ -32,7 +32,26 @@ pub fn z_value(confidence: Confidence) -> f64 {
 ///
 pub fn t_value(confidence: Confidence, degrees_of_freedom: f64) -> f64 {
     let student_t = StudentsT::new(0., 1., degrees_of_freedom).unwrap();
-    student_t.inverse_cdf(confidence.quantile())
+    let quantile = confidence.quantile();
+    let mut t = student_t.inverse_cdf(quantile);
+
+    // The inverse cdf of statrs loses accuracy for large degrees of freedom and even fails
+    // to converge for a few combinations (e.g., 49518 degrees of freedom and quantile 0.875
+    // yield 0.022 instead of 1.150). Its cdf is accurate, so the value is refined with a few
+    // Newton steps and the candidate with the smallest residual is retained.
+    let mut best = (t, (student_t.cdf(t) - quantile).abs());
+    for _ in 0..16 {
+        let slope = student_t.pdf(t);
+        if best.1 < 1e-12 || !(slope > 0.) {
+            break;
+        }
+        t -= (student_t.cdf(t) - quantile) / slope;
+        let residual = (student_t.cdf(t) - quantile).abs();
+        if residual < best.1 {
+            best = (t, residual);
+        }
+    }
+    best.0
 }
 
 const POPULATION_LIMIT: f64 = 100_000.;
